@@ -20,8 +20,10 @@ import (
 	"sync/atomic"
 	"testing"
 	"testing/synctest"
+	"time"
 
 	"github.com/keep-network/keep-core/pkg/net"
+	"github.com/keep-network/keep-core/pkg/net/internal"
 	"github.com/keep-network/keep-core/pkg/net/retransmission"
 	"github.com/keep-network/keep-core/pkg/operator"
 
@@ -73,6 +75,7 @@ type c16Handler struct {
 
 	seen      map[[2]uint64]bool // (sender channel, seqno)
 	delivered map[[2]uint64]bool
+	deadline  time.Time // non-zero: the context ends by deadline on the fake clock
 }
 
 type c16Chan struct {
@@ -92,6 +95,14 @@ type c16Send struct {
 
 func c16Run(t *testing.T, r *verifsim.Run) {
 	tp := r.T
+	hv := 40
+	if r.Tier == "thorough" {
+		hv = 10
+	}
+	if tp.Chance("high-volume", 1, hv) {
+		c16HighVolume(r)
+		return
+	}
 	gates := verifsim.NewGates()
 	defer gates.ReleaseAll()
 	concurrent := tp.Chance("concurrent-mode", 1, 3)
@@ -149,7 +160,18 @@ func c16Run(t *testing.T, r *verifsim.Run) {
 
 	register := func(ci int) *c16Handler {
 		h := &c16Handler{id: len(handlers), ch: ci, seen: map[[2]uint64]bool{}, delivered: map[[2]uint64]bool{}}
-		h.ctx, h.cancel = context.WithCancel(context.Background())
+		switch tp.Weighted("handler-ctx", 3, 1, 1) {
+		case 0:
+			h.ctx, h.cancel = context.WithCancel(context.Background())
+		case 1: // ends by its own deadline
+			h.deadline = time.Now().Add(time.Duration(10+len(handlers)) * time.Minute)
+			h.ctx, h.cancel = context.WithDeadline(context.Background(), h.deadline)
+		case 2: // child of a parent that expires
+			h.deadline = time.Now().Add(time.Duration(10+len(handlers)) * time.Minute)
+			parent, pc := context.WithDeadline(context.Background(), h.deadline)
+			child, cc := context.WithCancel(parent)
+			h.ctx, h.cancel = child, func() { cc(); pc() }
+		}
 		if !concurrent {
 			if tp.Chance("slow-handler", 1, 3) {
 				h.slowEvery = 1 + tp.Choose("slow-every", 3)
@@ -364,12 +386,29 @@ func c16Run(t *testing.T, r *verifsim.Run) {
 					r.Probe("cancel-while-handler-parked")
 				}
 			}
-			h.cancel()
-			h.cancelReq = true
-			synctest.Wait()
-			h.cancelledQ.Store(true)
-			r.Fault("cancel-handler")
-			r.Logf("cancel handler=%d", h.id)
+			if h.deadline.IsZero() {
+				h.cancel()
+				h.cancelReq = true
+				synctest.Wait()
+				h.cancelledQ.Store(true)
+				r.Fault("cancel-handler")
+				r.Logf("cancel handler=%d", h.id)
+			} else {
+				// the context ends by deadline: let the fake clock pass it
+				if d := time.Until(h.deadline); d >= 0 {
+					time.Sleep(d + time.Millisecond)
+					r.AddSim(int64(d), 0)
+				}
+				synctest.Wait()
+				for _, o := range handlers {
+					if !o.deadline.IsZero() && !o.cancelReq && !time.Now().Before(o.deadline) {
+						o.cancelReq = true
+						o.cancelledQ.Store(true)
+						r.Fault("handler-deadline-passed")
+						r.Logf("deadline passed handler=%d", o.id)
+					}
+				}
+			}
 		case "cancel-send":
 			s := liveS[tp.Choose("cancel-send", len(liveS))]
 			s.cancel()
@@ -433,4 +472,91 @@ func c16Run(t *testing.T, r *verifsim.Run) {
 		}
 	}
 	r.Logf("end sends=%d handlers=%d", len(sends), len(handlers))
+}
+
+// c16HighVolume: one long-lived handler on a local channel, thousands of cheap
+// distinct messages broadcast directly (quiescence only every 200, below the
+// handler buffer size), early messages re-broadcast in between and at the end.
+func c16HighVolume(r *verifsim.Run) {
+	tp := r.T
+	name := fmt.Sprintf("c16hv-%d", c16RunCounter.Add(1))
+	ticks := make(chan uint64)
+	defer close(ticks)
+	ident := localIdentifier("c16-hv-receiver")
+	x, y := DefaultCurve.ScalarBaseMult(big.NewInt(4242).Bytes())
+	lc := &localChannel{
+		name:                 name,
+		identifier:           &ident,
+		operatorPublicKey:    &operator.PublicKey{Curve: operator.Secp256k1, X: x, Y: y},
+		messageHandlers:      make([]*messageHandler, 0),
+		unmarshalersByType:   make(map[string]func() net.TaggedUnmarshaler),
+		retransmissionTicker: retransmission.NewTicker(ticks),
+	}
+	broadcastChannelsMutex.Lock()
+	if broadcastChannels == nil {
+		broadcastChannels = make(map[string][]*localChannel)
+	}
+	broadcastChannels[name] = []*localChannel{lc}
+	broadcastChannelsMutex.Unlock()
+	defer func() {
+		broadcastChannelsMutex.Lock()
+		delete(broadcastChannels, name)
+		broadcastChannelsMutex.Unlock()
+	}()
+	senders := []localIdentifier{"c16-hv-a", "c16-hv-b"}
+	idx := map[string]int{"c16-hv-a": 0, "c16-hv-b": 1}
+	pub := operator.MarshalUncompressed(lc.operatorPublicKey)
+	ctx, cancel := context.WithCancel(context.Background())
+	defer cancel()
+	var mu sync.Mutex
+	count := map[[2]uint64]int{}
+	var dup *[3]uint64
+	lc.Recv(ctx, func(m net.Message) {
+		k := [2]uint64{uint64(idx[m.TransportSenderID().String()]), m.Seqno()}
+		mu.Lock()
+		count[k]++
+		if count[k] == 2 && dup == nil {
+			dup = &[3]uint64{k[0], k[1], uint64(len(count))}
+		}
+		mu.Unlock()
+	})
+	total := 4300 + tp.Choose("hv-extra", 1500)
+	early := 1 + tp.Choose("hv-early", 5)
+	const batch = 200
+	send := func(i int) {
+		sd := i % len(senders)
+		broadcastMessage(name, internal.BasicMessage(&senders[sd], &c16Msg{ID: uint64(i)}, "c16/msg", pub, uint64(i/len(senders)+1)))
+	}
+	r.Logf("high-volume total=%d early=%d", total, early)
+	r.Fault("high-volume")
+	redelivered := 0
+	for i := 0; i < total; i++ {
+		send(i)
+		if i%batch == batch-1 {
+			if tp.Chance("hv-redeliver", 1, 4) {
+				send(tp.Choose("hv-which", early))
+				redelivered++
+			}
+			synctest.Wait()
+			r.Step()
+		}
+	}
+	synctest.Wait()
+	for e := 0; e < early; e++ {
+		send(e)
+		redelivered++
+	}
+	synctest.Wait()
+	mu.Lock()
+	defer mu.Unlock()
+	if dup != nil {
+		r.Failf("C16:duplicate-delivered", "high-volume: the handler saw (sender %d, seqno %d) twice; the second time after %d distinct messages on the same registration", dup[0], dup[1], dup[2])
+		return
+	}
+	if len(count) != total {
+		r.Failf("C16:delivered-message-never-handled", "high-volume: %d distinct messages broadcast, the handler saw %d", total, len(count))
+		return
+	}
+	r.Probe("high-volume-run")
+	r.Logf("high-volume done distinct=%d redelivered=%d", len(count), redelivered)
 }
